@@ -8,7 +8,7 @@ CLAIMS = {
  "C06": dict(
    level=("model_checking", "LocalKV.tla is the reference versioned map; TLC enumerates every edge of its state graph "
           "up to the length bound (quick 4 ops, thorough 5) over prefix-related keys incl. the empty key, and each edge is replayed "
-          "on a real node with ALL reads compared; random length-40 sequences are recorded from the real node and "
+          "on a real node with ALL reads compared; random sequences in two op mixes (uniform; collection-heavy with one-tick advances) are recorded from the real node and "
           "validated by TLC against the same actions and invariants.", "6 (C06)"),
    note="trusts tokio's paused clock (1 tick = 1 s), TLC, and that equal abstract states behave equally (every edge is "
         "replayed from the initial state along one path)",
@@ -21,7 +21,7 @@ CLAIMS = {
    level=("model_checking", "Gossip.tla (implementation-shaped model of the cluster, one action per Chitchat entry point) is model-checked by TLC for small constants "
           "with the ledger-exactness invariant C02_NoResurrection in every state; every transition of the quick config is replayed on real nodes with whole projected states compared; "
           "seeded random cluster scenarios (3-4 nodes, deletes, TTL, GC, partitions, late joiners, loss, duplication, reordering) are recorded from the real code and validated by TLC against the same actions and invariants; "
-          "non-conforming executions are judged by the observer specification on the logged real states, after amplification by random continuations.", "6 (C02), 2.2"),
+          "non-conforming executions are judged by the observer specification on the logged real states, after amplification by random continuations. Larger configurations (a datagram delayed across a collection and a size-truncated reset; a stale relay talking to a mid-reset replica, 2-3 M states) are model-checked in full and the transitions they exist for (deliveries to a copy whose watermark is above its max version) are exported and replayed (focused export; TLC output committed under corpus/ keyed by the spec+cfg hash for the quick tier, recomputed in the thorough tier).", "6 (C02), 2.2, 4"),
    note="bounded scopes (exhaustive only for the listed constants); known finding KF-1 is exempted by its ghost-variable signature mid[x] (known_findings.json) and its witness is replayed on every run; trusts TLC, the projection through chitchat's public API and the independent wire codec",
    technique="TLA+ model checking (Gossip.tla) + edge replay + TLC trace validation + observer spec on real traces"),
  "C03": dict(
@@ -53,7 +53,7 @@ CLAIMS = {
    note="removed-member memory modelled unbounded (capacity 500 not reached); death times are inferred by TLC in trace validation and derived from the logged evaluation clock in the observer; detector boundary equality may round either way (explicit in the spec)",
    technique="TLA+ model checking (Gossip.tla) + edge replay + TLC trace validation + observer spec on real traces"),
  "C13": dict(
-   level=("model_checking", "Gossip.tla action properties C13_Publish (a new value, exact at that moment, iff the live set or a live member's max version changed since the previous evaluation), C13_OnlyEval, and C13_Exact (value exactness after every evaluation) in the scope without tombstone GC; with and without an extra liveness predicate; on the model, replayed edges and real driver traces (watch value and publication count are projected through the public watcher).", "6 (C13)"),
+   level=("model_checking", "Gossip.tla action properties C13_Publish (a new value, exact at that moment, iff the live set or a live member's max version changed since the previous evaluation), C13_OnlyEval, and C13_Exact (value exactness after every evaluation) in the scope without tombstone GC; with and without an extra liveness predicate; on the model, replayed edges, real driver traces and generated membership schedules in which several members change state in one evaluation (watch value and publication count are projected through the public watcher).", "6 (C13)"),
    note="C13_Exact is claimed only for executions without tombstone GC (C12's step relation plus plain writes; see DESIGN observation O-4); predicates are functions of key-values",
    technique="TLA+ model checking (Gossip.tla) + edge replay + TLC trace validation + observer spec on real traces"),
  "C16": dict(
@@ -61,12 +61,12 @@ CLAIMS = {
    note="bounded scopes; seeds are modelled as the ability of any node to address any other",
    technique="TLA+ model checking (Gossip.tla) + edge replay + TLC trace validation + observer spec on real traces"),
  "C18": dict(
-   level=("model_checking", "Gossip.tla action Catchup (transcription of reset_node_state_if_update) with C18_Catchup (others untouched, live set unchanged, no re-creation of a removed member, (gc,max) never lowered, key set old or supplied with the newer version kept) and C18_NoPanic; model-checked interleaved with gossip and GC, replayed, and evaluated on real traces fed with honest peer snapshots and with arbitrary inconsistent states.", "6 (C18)"),
+   level=("model_checking", "Gossip.tla action Catchup (transcription of reset_node_state_if_update) with C18_Catchup (others untouched, live set unchanged, no re-creation of a removed member, (gc,max) never lowered, key set old or supplied with the newer version kept) and C18_NoPanic; model-checked interleaved with gossip and GC, replayed, and evaluated on real traces fed with honest peer snapshots and with arbitrary inconsistent states (any key set, statuses and versions incl. tombstones at or below the receiving copy's watermark, on copies with and without a watermark).", "6 (C18)"),
    note="defect F-4 (panic on older watermark / key-less snapshot) was found by this check and repaired by a fix: commit (known_findings.json, status fixed); supplied versions are pairwise distinct (observation O-2)",
    technique="TLA+ model checking (Gossip.tla) + edge replay + TLC trace validation + observer spec on real traces"),
  "C10": dict(
-   level=("model_checking", "Detector.tla (Gossip.tla + heartbeat arrivals as crafted SYN digests for one observed member + ghost evidence counters) with the integer-tick phi-accrual detector of FdOps.tla: C10_Complete (silent longer than phi x max(max_interval, initial_interval) => dead and not live at the next evaluation) and C10_TwoObservations, model-checked for all arrival histories up to the bound over a grid of detector parameters, every transition replayed on a real Chitchat under the paused clock, plus long random histories (steady phases, bursts, silences, stale heartbeats; windows to 1000, phi 0.5..16) validated by TLC.", "6 (C10)"),
-   note="durations are whole seconds (exact in f64); equality phi = threshold with an inexact mean may round either way (explicit in the spec); bounded arrival counts in the exhaustive part",
+   level=("model_checking", "Detector.tla (Gossip.tla + heartbeat arrivals as crafted SYN digests for one observed member + ghost evidence counters) with the integer-tick phi-accrual detector of FdOps.tla: C10_Complete (silent longer than phi x max(max_interval, initial_interval) => dead and not live at the next evaluation) C10_TwoObservations and its sharpened form C10_UsableEvidence (live => at least one interval between two reported heartbeats at most max_interval apart accepted since the last evaluation that found the member dead), model-checked for all arrival histories up to the bound over a grid of detector parameters, every transition replayed on a real Chitchat under the paused clock, plus long random histories (steady phases, bursts, silences, stale heartbeats; windows to 1000, phi 0.5..16) validated by TLC.", "6 (C10)"),
+   note="the detector window (sample count, sum, last report) is part of the projected state through hook verif_fd_windows, so every replay and validated trace compares it; durations are whole seconds (exact in f64); equality phi = threshold with an inexact mean may round either way (explicit in the spec); bounded arrival counts in the exhaustive part",
    technique="TLA+ model checking (Detector.tla/FdOps.tla) + edge replay + TLC trace validation + observer spec"),
  "C11": dict(
    level=("model_checking", "Same Detector.tla runs with C11_NeedsEvidence (live => at least two strictly increasing heartbeat values observed), C11_StaleIgnored (equal/lower/replayed/relayed heartbeats change nothing but the observer's own heartbeat) and C11_Steady (arrivals within [a,b], b <= max_interval, phi >= b/min(a, initial) => live at every evaluation).", "6 (C11)"),
